@@ -477,8 +477,9 @@ def gen_hidden_union_merge(rng):
     """two similar models whose shared field is a required container in one and, in the other (a list of objects), a union
     of several kinds that is also missing once: after the merge the field is a union with an Optional[Union[...]] member,
     whose own members (ints next to the other side's floats, lists next to lists) must still be combined"""
-    atoms_a = rng.choice([[1.5], [1.5, 2.5], ["x"], [1], [None, 2.5]])
-    atoms_b = rng.choice([[1, "a", None], [1, 2], [1, None], ["b", 1], [True, 1]])
+    atoms_a = rng.choice([[1.5], [1.5, 2.5], ["x"], [1], [None, 2.5], ["1", 2], ["1.5", 1], ["true", 1]])
+    atoms_b = rng.choice([[1, "a", None], [1, 2], [1, None], ["b", 1], [True, 1], ["3", 2.5, None], ["2.5", None, True],
+                          ["false", None, 2.5]])
     other = rng.choice([True, "s", 7, {"k": 1}])
     depth = rng.choice([0, 0, 1])
     fa, fb = atoms_a, atoms_b
